@@ -174,6 +174,26 @@ func invcdfReplay(in io.Reader, raw bool, args []string) (*Summary, error) {
 				}
 			}
 		}
+		// one quantile function used thousands of times must keep giving what a fresh one gives (no state carried between calls)
+		if nCase%41 == 1 {
+			dl := &pwDist{bp: ic.BP, unit: float64(ic.Unit), lob: float64(ic.LoB), hib: float64(ic.HiB)}
+			long := stats.InvCDF(dl)
+			lr := rand.New(rand.NewSource(baseSeed + int64(nCase)))
+			for k := 0; k < 2500; k++ {
+				y := lr.Float64()
+				if y == 0 {
+					continue
+				}
+				a := long(y)
+				if k%50 == 0 || k > 2400 {
+					if b := stats.InvCDF(dl)(y); math.Float64bits(a) != math.Float64bits(b) {
+						sum.viol("InvCDF-stateful", c, "call %d on one quantile function: InvCDF(%v)=%v, a fresh function gives %v", k, y, a, b)
+						break
+					}
+				}
+			}
+			sum.Checks++
+		}
 		// dispatch to the distribution's own methods
 		od := &ownDist{pwDist{bp: ic.BP, unit: float64(ic.Unit), lob: float64(ic.LoB), hib: float64(ic.HiB)}}
 		if g := stats.InvCDF(od)(0.25); g != -777+0.25 {
@@ -261,6 +281,9 @@ func invcdfReplay(in io.Reader, raw bool, args []string) (*Summary, error) {
 				if cv := d.CDF(k); cv > 0 && cv < 1 {
 					ys = append(ys, cv)
 				}
+			}
+			for k := 0; k < 400; k++ { // exercise the closure before checking it
+				inv(0.001 + 0.998*float64(k%97)/97)
 			}
 			for _, y := range ys {
 				want, ok := math.NaN(), true
